@@ -75,6 +75,7 @@ type model struct {
 	explicitExec bool
 	customCmds   bool
 	customCond   bool
+	flavour      bool // answer of the custom condition [flavour] in this script's RunT call
 	cli          bool // script must be runnable by cmd/testscript (no custom commands / conditions)
 	r            *rand.Rand
 	nameCtr      int
@@ -1227,6 +1228,8 @@ func (m *model) cond(t string) (string, bool, outcome) {
 		{"go1.20", 1}, {"go1.999", 0}, {"!go1.999", 1}, {"exec:vhelper", 1}, {"exec:no-such-prog-xyz", 0}, {"!exec:no-such-prog-xyz", 1}}
 	if m.customCond {
 		cs = append(cs, c{"always", 1}, c{"never", 0}, c{"!never", 1}, c{"conderr", -1})
+		fl := map[bool]int{true: 1, false: 0}
+		cs = append(cs, c{"flavour", fl[m.flavour]}, c{"!flavour", fl[!m.flavour]}, c{"flavour", fl[m.flavour]})
 	} else if !m.cli {
 		cs = append(cs, c{"nosuchcondition", -1})
 	}
